@@ -199,6 +199,9 @@ def directed_pool():
     P.append('((((a{128}){128}){128}){128}){128}')
     P.append('(((a{128}){128}){128}){16}')
     P.append('(((a{0,128}){0,128}){0,128}){0,128}')
+    for k in (2, 3, 5, 17, 33, 64, 65, 96, 127):      # products that wrap to a negative count, to a small positive one, to zero
+        P.append('(((a{128}){128}){128}){%d}' % k)
+        P.append('((((a{128}){128}){128}){16}){%d}' % k)
     BIG = '((a{128}){128}){16}'
     P.append('(' + BIG * 8 + '){128}')        # children that each reach the cap, added up, then multiplied again
     P.append('(' + BIG * 16 + '){128}')
